@@ -94,7 +94,7 @@ func TestVerifC06(t *testing.T) {
 				sendKinds: [4][]int{c06I: {c06Elic}, c06Z: {c06Elic, c06Multi}, c06H: {c06Elic}, c06A: {c06Elic}},
 				ackW:      [3]int{1, 0, pick(th, 2, 3)},
 				ticks:     []time.Duration{120 * c06ms}, timeout: true, probe: true, dropI: true, dropH: true, drop0: true, retry: true,
-				maxSends: pick(th, 4, 6), maxTicks: 1, depth: pick(th, 6, 7)}
+				maxSends: pick(th, 4, 5), maxTicks: 1, depth: pick(th, 6, 7)}
 		}),
 		// Retry while the generator is about to skip a number (prefix: Initial + three 0-RTT packets)
 		c06Part("retry-skip", func(th bool) *c06Cfg {
